@@ -9,7 +9,7 @@ from . import c31
 
 ID = "C32"
 TECHNIQUE = "client/server verb table agreement (K6) and handler class resolution through the in-repo MRO (K7) (ast)"
-FLOOR = 150
+FLOOR = 464
 RQ = c31.RQ
 RM = "breezy/bzr/remote.py"
 CL = "breezy/bzr/smart/client.py"
